@@ -26,7 +26,7 @@ type cancelCase struct {
 }
 
 func genCancelCase(t *rapid.T) cancelCase {
-	pc := genPlanCase(t, planGenOpts{synonyms: 1, vectors: vectorsMaybe, forceDV: true})
+	pc := genPlanCase(t, planGenOpts{synonyms: 1, vectors: vectorsMaybe, forceDV: true, wide: true, widePct: 6, chunkModes: true})
 	return cancelCase{
 		Plan:    pc.Plan,
 		BufSize: rapid.SampledFrom([]int{64, 1, 7, 4096, 1 << 20}).Draw(t, "bufSize"),
@@ -165,7 +165,20 @@ func runCancelCase(c cancelCase) *Violation {
 	if w > maxPoints {
 		step = w/maxPoints + 1
 	}
+	nClosed := 0
+	var ks []int
 	for k := 1; k <= w; k += step {
+		ks = append(ks, k)
+	}
+	if step > 1 {
+		// the tail of the run (doc values of the last fields, later sections, footer) write by write
+		for k := max(1, w-150); k <= w; k++ {
+			if (k-1)%step != 0 {
+				ks = append(ks, k)
+			}
+		}
+	}
+	for _, k := range ks {
 		rep := &closingReporter{k: k, ch: make(chan struct{})}
 		closed, v := attempt(fmt.Sprintf("closed at report %d of %d (buffer %d)", k, w, c.BufSize), rep.ch, rep, false)
 		if v != nil {
@@ -173,6 +186,15 @@ func runCancelCase(c cancelCase) *Violation {
 		}
 		if closed {
 			cancelStats.deciles[(k-1)*10/w]++
+			nClosed++
+			// a small unrelated merge right after a cancellation (every 15th one): whatever
+			// the cancelled merge left in process-wide state must not leak into it
+			if nClosed%15 == 1 {
+				if v := canaryMerge(prop); v != nil {
+					v.Message = fmt.Sprintf("after the merge cancelled at report %d of %d: %s", k, w, v.Message)
+					return v
+				}
+			}
 		}
 	}
 	// closed at the j-th vector-engine operation (vectors tag only)
@@ -204,6 +226,11 @@ func runCancelCase(c cancelCase) *Violation {
 		}
 		fakeOnOp(nil)
 	}
+	// a cancelled merge must leave nothing behind in the process either: a small, unrelated
+	// merge right after all those cancellations must be complete and correct
+	if v := canaryMerge(prop); v != nil {
+		return v
+	}
 	// asynchronous closers (schedule sampling)
 	for _, spin := range c.Spins {
 		ch := make(chan struct{})
@@ -222,6 +249,34 @@ func runCancelCase(c cancelCase) *Violation {
 		if v != nil {
 			return v
 		}
+	}
+	return nil
+}
+
+// canaryMerge merges two tiny fixed segments and checks the result against the model.
+func canaryMerge(prop string) *Violation {
+	mk := func(id, term string) *spec.BatchSpec {
+		return &spec.BatchSpec{Docs: []spec.DocSpec{{ID: spec.B(id), Fields: []spec.FieldSpec{{Name: "c", Type: 't', Stored: true, DV: true, Value: []byte(term), Len: 2,
+			Tokens: []spec.TokenSpec{{Term: spec.B(term), Freq: 2, Locs: []spec.LocSpec{{Pos: 1, Start: 0, End: 3}, {Pos: 2, Start: 4, End: 7}}}}}}}}}
+	}
+	plan := &spec.MergePlan{Children: []spec.MergePlan{{Leaf: mk("k1", "foo")}, {Leaf: mk("k2", "bar"), Mmap: true}, {Leaf: mk("k3", "foo")}},
+		Drops: []spec.DropSpec{{Nil: true}, {}, {Nil: true}}}
+	var res *drive.PlanResult
+	if err := drive.Safe(func() error {
+		var e error
+		res, e = drive.RunPlan(plan)
+		return e
+	}); err != nil {
+		return violation(prop, "cancel/later-merge-broken", "a small merge right after the cancelled merges failed: %v", err)
+	}
+	defer res.Close()
+	want := spec.ExpectResolved(spec.Resolve(plan))
+	got, err := drive.Observe(res.Seg)
+	if err != nil {
+		return violation(prop, "cancel/later-merge-broken", "a small merge right after the cancelled merges cannot be read: %v", err)
+	}
+	if d := spec.Diff(want, got, spec.DiffOpts{DVFieldsSub: true}); d != "" {
+		return violation(prop, "cancel/later-merge-broken", "a small merge right after the cancelled merges is wrong: %s", d)
 	}
 	return nil
 }
